@@ -958,6 +958,7 @@ func Run(args map[string]string) {
 	n := hutil.ArgInt(args, "n", 200)
 	nm := hutil.ArgInt(args, "malformed", 200)
 	ng := hutil.ArgInt(args, "garbage", 100)
+	ne := hutil.ArgInt(args, "e2e", 0)
 	r := hutil.NewRng(seed)
 	o := &Out{Cases: []Case{}, HypFail: []string{}, SQLTypes: map[string]int{}}
 	em := emits()
@@ -985,6 +986,9 @@ func Run(args map[string]string) {
 	seedDoc := []byte(`{"xid":"x","branchId":7,"sqlUndoLogs":[{"sqlType":"UPDATE","tableName":"t","beforeImage":{"tableName":"t","sqlType":"UPDATE","rows":[{"fields":[{"keyType":"PRIMARY_KEY","name":"id","type":-5,"value":1}]}]},"afterImage":null}]}`)
 	for i := 0; i < ng; i++ {
 		o.garbageCase(r.Fork(uint64(900000+i)), i, seedDoc)
+	}
+	for i := 0; i < ne; i++ {
+		o.e2eCase(r.Fork(uint64(2000000+i)), i, i+int(seed)*5)
 	}
 	o.hypothesis([]byte{})
 	big := r.Bytes(200000)
